@@ -7,6 +7,8 @@ import RoaringModel.Lemmas.BitmapQuery
 import RoaringModel.Props.C01
 import RoaringModel.Props.C03
 import RoaringModel.Props.C17
+import RoaringModel.Safe
+import RoaringModel.Lemmas.SafeLemmas
 /-!
 # C16 — public operations are total: only the documented panics (property theorems)
 
@@ -20,7 +22,18 @@ at the documented panics:
 * `from_lsb0_bytes` panics only past `2^32`, and exactly then for a multiple-of-8 offset: `C16_lsb0_panics`
   (corollary of C17);
 * the `Option`-valued queries return `None` exactly when the set has no such element: `C16_select_total`,
-  `C16_min_max_total`.
+  `C16_min_max_total`;
+* **no arithmetic panic / wrap**: the `C16_safe_*` theorems (second half of the file).  `RoaringModel/Safe.lean` states,
+  for every `-`, `+=`, `<<`, `>>`, slice index / slice range and narrowing `as` cast of `bitmap_store.rs`,
+  `array_store/mod.rs`, `container.rs`, `inherent.rs`, `util.rs`, `serialization.rs` (writer), `statistics.rs` and of
+  the treemap's `len/rank/select/split/join`, the side condition under which the Rust expression (which panics with
+  overflow checks on and wraps with them off; indexing panics in both) and the model's total `Nat` expression agree —
+  a decidable predicate `Safe_*` with the `file:line` of every conjunct; the theorems here derive each of them from
+  the invariant of the receiver (`BStore.Inv` / `Arr.Inv` / `Store.Inv` / `Bitmap.WF`) and the integer type of the
+  arguments.  The only side conditions that are NOT consequences of well-formedness are caller obligations of
+  crate-private functions (`ArrayStore::remove_smallest/remove_biggest`: `n ≤ len`, discharged at the public entry
+  points in `C16_safe_removeSmallest/Biggest`) and the `u64` sums of a treemap holding all `2^64` values
+  (`C16_safe_treemap_len_iff`, `C16_treemap_len_2p64_observation`).
 -/
 namespace Roaring.C16
 open Roaring Roaring.MiscLemmas
@@ -222,5 +235,352 @@ theorem C16_min_max_total (b : Bitmap) (h : Bitmap.WF b) :
   rw [Bitmap.min?_spec b h, Bitmap.max?_spec b h]
   unfold Spec.min? Spec.max?
   exact ⟨List.head?_eq_none_iff, List.getLast?_eq_none_iff⟩
+
+
+/-! ## No arithmetic overflow / underflow / out-of-range index on well-formed values (`Safe_*`, Safe.lean)
+
+Running examples: `exBits` (a `BitmapStore` holding 0..=65535), `exB` (one array chunk, one full bitset chunk). -/
+
+/-- (for the examples only) strict sortedness and bound-fitting of concrete values are decidable -/
+local instance (l : List Nat) : Decidable (Sorted l) := by unfold Sorted; infer_instance
+local instance (v : List Nat) : Decidable (Arr.Inv v) := by unfold Arr.Inv; infer_instance
+local instance (m : Nat) (b : Bound) : Decidable (Roaring.Bound.le m b) := by
+  cases b <;> unfold Roaring.Bound.le <;> infer_instance
+
+/-- a well-formed two-chunk bitmap: chunk 0 = array `{1,2,3}`, chunk 2 = full bitset -/
+def exB : Bitmap := [⟨0, .array [1, 2, 3]⟩, ⟨2, .bitmap BStore.full⟩]
+
+theorem exB_wf : Bitmap.WF exB := by
+  refine ⟨by decide, ?_⟩
+  intro c hc
+  simp only [exB, List.mem_cons, List.not_mem_nil, or_false] at hc
+  rcases hc with rfl | rfl
+  · exact ⟨by decide, by decide, by decide, by decide⟩
+  · exact ⟨by decide, BStore.inv_full, by decide⟩
+
+/-! ### (a) `BitmapStore` (bitmap_store.rs) -/
+
+/-- `insert`: `self.bits[key]`, `1 << bit`, `>> bit`, `self.len += inserted` (bitmap_store.rs:106-114). -/
+theorem C16_safe_bstore_insert (b : BStore) (hb : b.Inv) (i : Nat) (hi : i < 65536) : b.Safe_insert i :=
+  BStore.safe_insert b hb i hi
+example : BStore.full.Safe_insert 65535 := C16_safe_bstore_insert _ BStore.inv_full _ (by decide)
+/-- the predicate has teeth: on a store whose cached `len` is wrong (`u64::MAX`) `self.len += 1` overflows -/
+example : ¬ BStore.Safe_insert { len := wMax, bits := BStore.zeros } 5 := by decide +kernel
+
+/-- `remove`: `self.bits[key]`, `1 << bit`, `self.len -= removed` (bitmap_store.rs:188-196). -/
+theorem C16_safe_bstore_remove (b : BStore) (hb : b.Inv) (i : Nat) (hi : i < 65536) : b.Safe_remove i :=
+  BStore.safe_remove b hb i hi
+example : BStore.full.Safe_remove 0 := C16_safe_bstore_remove _ BStore.inv_full _ (by decide)
+/-- teeth: with a cached `len` of 0 over a non-empty word, `self.len -= 1` underflows -/
+example : ¬ BStore.Safe_remove { len := 0, bits := List.replicate 1024 wMax } 5 := by decide +kernel
+
+/-- `contains`: `self.bits[key(index)] & (1 << bit(index))` (bitmap_store.rs:237-239). -/
+theorem C16_safe_bstore_contains (b : BStore) (hb : b.Inv) (i : Nat) (hi : i < 65536) : b.Safe_contains i :=
+  BStore.safe_contains b hb i hi
+example : BStore.new.Safe_contains 65535 := C16_safe_bstore_contains _ BStore.inv_new _ (by decide)
+
+/-- `insert_range`: word indexing, `1 << start_bit`, `1 << (end_bit + 1)`, `end - start + 1` in `u16`, the `u32` counter
+    `existed`, `u64::from(end - start + 1) - u64::from(existed)`, `end as u64 - start as u64 + 1 - existed as u64`,
+    `self.len += inserted` (bitmap_store.rs:116-161). -/
+theorem C16_safe_bstore_insertRange (b : BStore) (hb : b.Inv) (s e : Nat) (hse : s ≤ e) (he : e < 65536) :
+    b.Safe_insertRange s e := BStore.safe_insertRange b hb s e hse he
+example : BStore.full.Safe_insertRange 0 65535 := C16_safe_bstore_insertRange _ BStore.inv_full _ _ (by decide) (by decide)
+example : BStore.new.Safe_insertRange 63 64 := by decide +kernel
+
+/-- `remove_range`: word indexing, the slices `self.bits[start_key + 1..end_key]`, `u64::MAX << start_bit`,
+    `u64::MAX >> (63 - end_bit)`, the `u32` counter `removed`, `self.len -= removed` (bitmap_store.rs:198-235). -/
+theorem C16_safe_bstore_removeRange (b : BStore) (hb : b.Inv) (s e : Nat) (hse : s ≤ e) (he : e < 65536) :
+    b.Safe_removeRange s e := BStore.safe_removeRange b hb s e hse he
+example : BStore.full.Safe_removeRange 1 65534 := C16_safe_bstore_removeRange _ BStore.inv_full _ _ (by decide) (by decide)
+
+/-- `contains_range`: `end - start`, `1 << start_bit`, `64 - (end_bit + 1)` and the shift by it, the slice
+    `self.bits[start_i..=end_i]` is in range and non-empty (`[] => unreachable!()`) (bitmap_store.rs:241-270). -/
+theorem C16_safe_bstore_containsRange (b : BStore) (hb : b.Inv) (s e : Nat) (hse : s ≤ e) (he : e < 65536) :
+    b.Safe_containsRange s e := BStore.safe_containsRange b hb s e hse he
+example : BStore.full.Safe_containsRange 64 127 := C16_safe_bstore_containsRange _ BStore.inv_full _ _ (by decide) (by decide)
+
+/-- `min` / `max` / `to_array_store`: `63 - bit.leading_zeros()` only on a non-zero word; the casts
+    `(index * 64 + …) as u16`, `(trailing_zeros + 64 * index as u32) as u16` are lossless (bitmap_store.rs:280-315). -/
+theorem C16_safe_bstore_min_max_toArray (b : BStore) (hb : b.Inv) : b.Safe_min ∧ b.Safe_max ∧ b.Safe_toArray :=
+  ⟨BStore.safe_min b hb, BStore.safe_max b hb, BStore.safe_toArray b hb⟩
+example : BStore.full.Safe_min ∧ BStore.full.Safe_max ∧ BStore.full.Safe_toArray :=
+  C16_safe_bstore_min_max_toArray _ BStore.inv_full
+
+/-- `rank`: `self.bits[..key]`, `self.bits[key]`, `63 - bit`, `<< (63 - bit)`, the `u64` sum (bitmap_store.rs:317-322). -/
+theorem C16_safe_bstore_rank (b : BStore) (hb : b.Inv) (i : Nat) (hi : i < 65536) : b.Safe_rank i :=
+  BStore.safe_rank b hb i hi
+example : BStore.full.Safe_rank 65535 := C16_safe_bstore_rank _ BStore.inv_full _ (by decide)
+
+/-- the word loops `value &= value - 1` (`select(value, n)`, `remove_smallest`) and
+    `*word &= !(1 << (63 - word.leading_zeros()))` (`remove_biggest`) may run up to `count_ones()` times:
+    the word is non-zero at every iteration (bitmap_store.rs:384, :407, :425). -/
+theorem C16_safe_word_loops (w : Nat) (hw : w < 2^64) (n : Nat) (hn : n ≤ popcount w) :
+    Safe_popLowN w n ∧ Safe_popHighN w n := ⟨safe_popLowN n w hw hn, safe_popHighN n w hw hn⟩
+example : Safe_popLowN 0b1011 3 ∧ Safe_popHighN 0b1011 3 := by decide
+/-- teeth: a fourth iteration would compute `0 - 1` / `63 - 64` -/
+example : ¬ Safe_popLowN 0b1011 4 ∧ ¬ Safe_popHighN 0b1011 4 := by decide
+
+/-- `select` (every `n : u16`, also `n ≥ len`): `select(value, n)` runs `value &= value - 1` only `n < count_ones`
+    times, `n -= len` is guarded, `(64 * key as u64 + index) as u16` is lossless (bitmap_store.rs:324-337, :422-428). -/
+theorem C16_safe_bstore_select (b : BStore) (hb : b.Inv) (n : Nat) : b.Safe_select n := BStore.safe_select b hb n
+example : BStore.full.Safe_select 65535 := C16_safe_bstore_select _ BStore.inv_full _
+
+/-- `remove_smallest` / `remove_biggest` (every `n : u64`): `self.len -= clear_bits` behind the early return,
+    `clear_bits -= count`, `*word - 1` and `63 - word.leading_zeros()` only on non-zero words
+    (bitmap_store.rs:374-417). -/
+theorem C16_safe_bstore_removeSmallest_Biggest (b : BStore) (hb : b.Inv) (n : Nat) :
+    b.Safe_removeSmallest n ∧ b.Safe_removeBiggest n :=
+  ⟨BStore.safe_removeSmallest b hb n, BStore.safe_removeBiggest b hb n⟩
+example : BStore.full.Safe_removeSmallest 100 ∧ BStore.full.Safe_removeBiggest 100 :=
+  C16_safe_bstore_removeSmallest_Biggest _ BStore.inv_full _
+
+/-- `op_bitmaps` (`|=`, `&=`, `-=`, `^=` with a bitset): `bits1.len += index1.count_ones() as u64`
+    (bitmap_store.rs:634-640). -/
+theorem C16_safe_bstore_opBitmaps (f : Nat → Nat → Nat) (hf : ∀ x y, x < 2^64 → y < 2^64 → f x y < 2^64)
+    (a b : BStore) (ha : a.Inv) (hb : b.Inv) : BStore.Safe_opBitmaps f a b := BStore.safe_opBitmaps f hf a b ha hb
+example : BStore.Safe_opBitmaps (· ||| ·) BStore.full BStore.new :=
+  C16_safe_bstore_opBitmaps _ (fun _ _ hx hy => Nat.or_lt_two_pow hx hy) _ _ BStore.inv_full BStore.inv_new
+
+/-- `BitOrAssign<&ArrayStore>`: `self.len += (old_w ^ new_w) >> bit` at every step (bitmap_store.rs:648-657). -/
+theorem C16_safe_bstore_orArr (b : BStore) (hb : b.Inv) (v : List Nat) (hv : ∀ x ∈ v, x < 65536) :
+    BStore.Safe_orArr b v := BStore.safe_orArr v b hb hv
+example : BStore.Safe_orArr BStore.full [0, 5, 65535] := C16_safe_bstore_orArr _ BStore.inv_full _ (by decide)
+
+/-- `SubAssign<&ArrayStore>`: `self.len -= (old_w ^ new_w) >> bit` at every step (bitmap_store.rs:673-683). -/
+theorem C16_safe_bstore_subArr (b : BStore) (hb : b.Inv) (v : List Nat) (hv : ∀ x ∈ v, x < 65536) :
+    BStore.Safe_subArr b v := BStore.safe_subArr v b hb hv
+example : BStore.Safe_subArr BStore.new [0, 5, 65535] := C16_safe_bstore_subArr _ BStore.inv_new _ (by decide)
+
+/-- `BitXorAssign<&ArrayStore>`: `self.len as i64`, `len += 1 - 2 * (…) as i64` stays within `0..=65536` at every
+    step, so `len as u64` is lossless (bitmap_store.rs:692-703). -/
+theorem C16_safe_bstore_xorArr (b : BStore) (hb : b.Inv) (v : List Nat) (hv : ∀ x ∈ v, x < 65536) :
+    BStore.Safe_xorArr b v := BStore.safe_xorArr b hb v hv
+example : BStore.Safe_xorArr BStore.new [7, 7, 7] := C16_safe_bstore_xorArr _ BStore.inv_new _ (by decide)
+
+/-- `intersection_len_bitmap` / `intersection_len_array`: indexing, `1 << bit`, the `u64` sums
+    (bitmap_store.rs:339-353). -/
+theorem C16_safe_bstore_interLen (a b : BStore) (ha : a.Inv) (hb : b.Inv) (v : List Nat) (hv : Arr.Inv v) :
+    a.Safe_interLenBitmap b ∧ b.Safe_interLenArray v :=
+  ⟨BStore.safe_interLenBitmap a b ha hb, BStore.safe_interLenArray b hb v hv⟩
+example : BStore.full.Safe_interLenBitmap BStore.full ∧ BStore.full.Safe_interLenArray [1, 2] :=
+  C16_safe_bstore_interLen _ _ BStore.inv_full BStore.inv_full _ ⟨by decide, by decide⟩
+
+/-- `BitmapIter::next` / `next_back` / `advance_to` / `advance_back_to`: `self.key + 1`, the yielded
+    `64 * self.key + index` / `64 * self.key_back + index` fit `u16`; `1 << bit`, `u64::MAX >> (64 - bit - 1)`
+    (bitmap_store.rs:481-618; `value - 1`, `key_back -= 1`, `63 - leading_zeros` sit behind explicit tests that the
+    model's `BIter.next` / `nextBack` repeat). -/
+theorem C16_safe_biter (it : BIter) (hi : it.Inv) (index : Nat) :
+    it.Safe_next ∧ it.Safe_nextBack ∧ BIter.Safe_advance index :=
+  ⟨BIter.safe_next it hi, BIter.safe_nextBack it hi, BIter.safe_advance index⟩
+example : (BIter.new BStore.full.bits).Safe_next ∧ (BIter.new BStore.full.bits).Safe_nextBack ∧ BIter.Safe_advance 65535 :=
+  C16_safe_biter _ (BIter.new_inv _ BStore.inv_full.words) _
+
+/-! ### (b) `ArrayStore` (array_store/mod.rs) -/
+
+/-- `insert` / `remove`: `Vec::insert(loc, …)` gets `loc ≤ len`, `Vec::remove(loc)` gets `loc < len`
+    (array_store/mod.rs:85-87, :134-136) — for every vector. -/
+theorem C16_safe_array_bsearch (v : List Nat) (x : Nat) : Arr.Safe_bsearch v x := Arr.safe_bsearch v x
+
+/-- `insert_range`: `self.vec[pos_start..]`, `splice(pos_start..pos_end, …)` with `pos_start ≤ pos_end ≤ len`,
+    `end as u64 - start as u64 + 1 - dropped.len() as u64` (array_store/mod.rs:89-107). -/
+theorem C16_safe_array_insertRange (v : List Nat) (hv : Arr.Inv v) (s e : Nat) (hse : s ≤ e) :
+    Arr.Safe_insertRange v s e := Arr.safe_insertRange v hv s e hse
+example : Arr.Safe_insertRange [1, 5, 9, 65535] 4 9 := C16_safe_array_insertRange _ ⟨by decide, by decide⟩ _ _ (by decide)
+/-- teeth: on a vector with a duplicate the subtraction `… + 1 - dropped.len()` underflows -/
+example : ¬ Arr.Safe_insertRange [1, 2, 2, 2, 3] 2 3 := by decide
+
+/-- `remove_range`: `self.vec[pos_start..]`, `drain(pos_start..pos_end)`, `pos_end - pos_start`
+    (array_store/mod.rs:138-151). -/
+theorem C16_safe_array_removeRange (v : List Nat) (hv : Arr.Inv v) (s e : Nat) : Arr.Safe_removeRange v s e :=
+  Arr.safe_removeRange v hv s e
+example : Arr.Safe_removeRange [1, 5, 9, 65535] 4 9 := C16_safe_array_removeRange _ ⟨by decide, by decide⟩ _ _
+
+/-- `contains_range`: `end - start`, `start_i + range_count - 1` (array_store/mod.rs:166-181). -/
+theorem C16_safe_array_containsRange (v : List Nat) (s e : Nat) (hse : s ≤ e) : Arr.Safe_containsRange v s e :=
+  Arr.safe_containsRange v s e hse
+example : Arr.Safe_containsRange [1, 2, 3] 0 65535 := C16_safe_array_containsRange _ _ _ (by decide)
+
+/-- `to_bitmap_store`: `bits[key(index)] |= 1 << bit(index)` and, in a debug build, the `unwrap()` of
+    `BitmapStore::from_unchecked` (array_store/mod.rs:224-232, bitmap_store.rs:99). -/
+theorem C16_safe_array_toBitmap (v : List Nat) (hv : Arr.Inv v) : Arr.Safe_toBitmap v := Arr.safe_toBitmap v hv
+example : Arr.Safe_toBitmap [0, 64, 65535] := C16_safe_array_toBitmap _ ⟨by decide, by decide⟩
+
+/-- `ArrayStore::remove_smallest` / `remove_biggest` (`rotate_left(n)`, `self.vec.len() - n as usize`,
+    array_store/mod.rs:153-160) are safe exactly for `n ≤ len`; this is NOT implied by the vector's invariant
+    (they are crate-private: see `C16_safe_removeSmallest` for the callers). -/
+theorem C16_safe_array_removeN_iff (v : List Nat) (n : Nat) : Arr.Safe_removeN v n ↔ n ≤ v.length := Iff.rfl
+example : Arr.Safe_removeN [1, 2] 2 ∧ ¬ Arr.Safe_removeN [1, 2] 3 := by decide
+
+/-! ### (c) `Store` / `Container` / `RoaringBitmap` (store/mod.rs, container.rs, inherent.rs, util.rs) -/
+
+/-- Store dispatch: every `Store::{insert, remove, insert_range, remove_range, contains_range, rank, select}` call on a
+    structurally valid store with `u16` arguments (`s ≤ e` for the ranges: the callers never pass an empty one). -/
+theorem C16_safe_store (st : Store) (h : st.Inv) (i s e n : Nat) (hi : i < 65536) (hse : s ≤ e) (he : e < 65536) :
+    st.Safe_insert i ∧ st.Safe_remove i ∧ st.Safe_insertRange s e ∧ st.Safe_removeRange s e ∧
+    st.Safe_containsRange s e ∧ st.Safe_rank i ∧ st.Safe_select n :=
+  ⟨Store.safe_insert st h i hi, Store.safe_remove st h i hi, Store.safe_insertRange st h s e hse he,
+   Store.safe_removeRange st h s e hse he, Store.safe_containsRange st h s e hse he, Store.safe_rank st h i hi,
+   Store.safe_select st h n⟩
+example : (Store.bitmap BStore.full).Safe_insertRange 3 70 ∧ (Store.array [1, 2]).Safe_removeRange 3 70 :=
+  ⟨(C16_safe_store (.bitmap BStore.full) BStore.inv_full 0 3 70 0 (by decide) (by decide) (by decide)).2.2.1,
+   (C16_safe_store (.array [1, 2]) ⟨by decide, by decide⟩ 0 3 70 0 (by decide) (by decide) (by decide)).2.2.2.1⟩
+
+/-- `Container::insert_range`: `range.len() as u64`, the early `to_bitmap_store`, the store call
+    (container.rs:59-69); `ensure_correct_store` (container.rs:177-190). -/
+theorem C16_safe_container_insertRange (c : Container) (h : c.store.Inv) (s e : Nat) (hse : s ≤ e) (he : e < 65536) :
+    c.Safe_insertRange s e ∧ c.Safe_ensureCorrectStore :=
+  ⟨Container.safe_insertRange c h s e hse he, Container.safe_ensureCorrectStore c h⟩
+example : (Container.mk 7 (.array [1, 2, 3])).Safe_insertRange 0 65535 :=
+  (C16_safe_container_insertRange ⟨7, .array [1, 2, 3]⟩ ⟨by decide, by decide⟩ _ _ (by decide) (by decide)).1
+
+/-- `Container::remove_smallest` / `remove_biggest`: `bits.len() - n` and the store calls are safe for `n ≤ len`
+    (container.rs:110-138). -/
+theorem C16_safe_container_removeN (c : Container) (h : c.store.Inv) (n : Nat) (hn : n ≤ c.len) :
+    c.Safe_removeSmallest n ∧ c.Safe_removeBiggest n :=
+  ⟨Container.safe_removeSmallest c h n hn, Container.safe_removeBiggest c h n hn⟩
+example : (Container.mk 2 (.bitmap BStore.full)).Safe_removeSmallest 65000 :=
+  (C16_safe_container_removeN ⟨2, .bitmap BStore.full⟩ BStore.inv_full 65000 (by decide)).1
+
+/-- `util::split` / `util::join`: `(value >> 16) as u16` is lossless, `(u32::from(high) << 16) + u32::from(low)` does
+    not overflow (bitmap/util.rs:6-15). -/
+theorem C16_safe_split_join (v k i : Nat) (hv : v < 4294967296) (hk : k < 65536) (hi : i < 65536) :
+    Bitmap.Safe_split v ∧ Bitmap.Safe_join k i := ⟨Bitmap.safe_split v hv, Bitmap.safe_join k i hk hi⟩
+example : Bitmap.Safe_split 4294967295 ∧ Bitmap.Safe_join 65535 65535 := by decide
+
+/-- `binary_search_by_key` results used as indices (`self.containers[loc]`, `get_unchecked(i)`, `containers[..i]`,
+    `containers[i..]`) and `find_container_by_key` (`Vec::insert(loc, …)`, then `self.containers[loc]`) are in range
+    — for every container vector (inherent.rs:190-213, :248, :263, :272, :352, :426, :466, :529, :542, :699-702). -/
+theorem C16_safe_search (b : Bitmap) (key : Nat) : Bitmap.Safe_search b key ∧ Bitmap.Safe_findContainerByKey b key :=
+  ⟨Bitmap.safe_search b key, Bitmap.safe_findContainerByKey b key⟩
+example : Bitmap.Safe_findContainerByKey exB 1 := by decide +kernel
+
+/-- `len`: the `u64` sum (inherent.rs:629-631); it is at most `2^32`. -/
+theorem C16_safe_len (b : Bitmap) (h : b.WF) : Bitmap.Safe_len b ∧ Bitmap.len b ≤ 4294967296 :=
+  ⟨Bitmap.safe_len b h, Bitmap.wf_len_le b h⟩
+example : Bitmap.Safe_len exB := (C16_safe_len exB exB_wf).1
+
+/-- `rank`: `get_unchecked(i)`, `self.containers[..i]`, `rank(index) + sum::<u64>()` (inherent.rs:687-704). -/
+theorem C16_safe_rank (b : Bitmap) (h : b.WF) (v : Nat) (hv : v < 4294967296) : Bitmap.Safe_rank b v :=
+  Bitmap.safe_rank b h v hv
+example : Bitmap.Safe_rank exB 4294967295 := C16_safe_rank exB exB_wf _ (by decide)
+
+/-- `select`: `n -= len` only when `len ≤ n`, `n as u16` only when `n < len ≤ 65536` (inherent.rs:724-739). -/
+theorem C16_safe_select (b : Bitmap) (h : b.WF) (n : Nat) : Bitmap.Safe_select b n :=
+  Bitmap.safe_select b n h.storesInv
+example : Bitmap.Safe_select exB 65000 := C16_safe_select exB exB_wf _
+
+/-- `range_cardinality`: `&self.containers[i]`, `start_low - 1` behind `start_low != 0`,
+    `cardinality -= container.rank(start_low - 1)` (at most what was just added), the `u64` sums, `&self.containers[i..]`
+    (inherent.rs:512-556). -/
+theorem C16_safe_rangeCardinality (b : Bitmap) (h : b.WF) (lo hi : Bound)
+    (hlo : Bound.le u32Max lo) (hhi : Bound.le u32Max hi) : Bitmap.Safe_rangeCardinality b lo hi :=
+  Bitmap.safe_rangeCardinality b h lo hi hlo hhi
+example : Bitmap.Safe_rangeCardinality exB (.incl 2) (.excl 140000) :=
+  C16_safe_rangeCardinality exB exB_wf _ _ (by decide) (by decide)
+
+/-- `contains_range`: `end_high - start_high`, `&self.containers[i..]`, `containers[0]`, the `[first, rest @ .., last]`
+    pattern (never `unreachable!`), the container calls (inherent.rs:451-490). -/
+theorem C16_safe_containsRange (b : Bitmap) (h : b.WF) (lo hi : Bound)
+    (hlo : Bound.le u32Max lo) (hhi : Bound.le u32Max hi) : Bitmap.Safe_containsRange b lo hi :=
+  Bitmap.safe_containsRange b h lo hi hlo hhi
+example : Bitmap.Safe_containsRange exB (.incl 2) .unb := C16_safe_containsRange exB exB_wf _ _ (by decide) (by decide)
+
+/-- `insert_range`, the whole method: `util::split`, every `find_container_by_key` index is valid, the loop
+    `start_container_key..end_container_key`, every `Container::insert_range(low..=u16::MAX)` / `(0..=end_index)` call on
+    the evolving container vector, `inserted += …` (inherent.rs:230-275 with container.rs:59-69 and the store code
+    below it). -/
+theorem C16_safe_insertRange (b : Bitmap) (h : b.WF) (lo hi : Bound)
+    (hlo : Bound.le u32Max lo) (hhi : Bound.le u32Max hi) : Bitmap.Safe_insertRange b lo hi :=
+  Bitmap.safe_insertRange b h lo hi hlo hhi
+example : Bitmap.Safe_insertRange exB (.excl 2) (.incl 400000) :=
+  C16_safe_insertRange exB exB_wf _ _ (by decide) (by decide)
+
+/-- `insert_range` / `remove_range`: the `u64` counters `inserted += …`, `removed += …`
+    (inherent.rs:263, :272, :398); the indices come from `find_container_by_key` (`C16_safe_search`), the container
+    calls get `s ≤ e ≤ u16::MAX` (`C16_safe_container_insertRange`, `C16_safe_store`). -/
+theorem C16_safe_range_counters (b : Bitmap) (h : b.WF) (lo hi : Bound)
+    (hlo : Bound.le u32Max lo) (hhi : Bound.le u32Max hi) :
+    Bitmap.Safe_insertRangeCount b lo hi ∧ Bitmap.Safe_removeRangeCount b lo hi :=
+  ⟨Bitmap.safe_insertRangeCount b h lo hi hlo hhi, Bitmap.safe_removeRangeCount b h lo hi hlo hhi⟩
+example : Bitmap.Safe_insertRangeCount exB .unb .unb := (C16_safe_range_counters exB exB_wf _ _ (by decide) (by decide)).1
+
+/-- `remove_smallest` (every `n : u64`): `n -= container_len` is guarded and `Container::remove_smallest` is only called
+    with `0 < n < container.len()`, which discharges `bits.len() - n` (container.rs:113) and
+    `rotate_left(n)` / `self.vec.len() - n as usize` (array_store/mod.rs:154-155) (inherent.rs:756-776). -/
+theorem C16_safe_removeSmallest (b : Bitmap) (h : b.WF) (n : Nat) : Bitmap.Safe_removeSmallest b n :=
+  Bitmap.safe_removeSmallest b n h.storesInv
+example : Bitmap.Safe_removeSmallest exB 5 := C16_safe_removeSmallest exB exB_wf _
+
+/-- `remove_biggest` (every `n : u64`), same for the scan from the back (inherent.rs:791-811, container.rs:128,
+    array_store/mod.rs:159). -/
+theorem C16_safe_removeBiggest (b : Bitmap) (h : b.WF) (n : Nat) : Bitmap.Safe_removeBiggest b n :=
+  Bitmap.safe_removeBiggest b n h.storesInv
+example : Bitmap.Safe_removeBiggest exB 65537 := C16_safe_removeBiggest exB exB_wf _
+
+/-- `serialize_into`: `self.containers.len() as u32`, `(container.len() - 1) as u16` (`1 ≤ len ≤ 65536`), and the
+    running `offset: u32` (`8 + 8·n + Σ sizes ≤ 8 + 8200·65536 < 2^32`) (serialization.rs:66-86);
+    `serialized_size` fits even a 32-bit `usize` (serialization.rs:35-47). -/
+theorem C16_safe_serialize (b : Bitmap) (h : b.WF) : Bitmap.Safe_serialize b ∧ Bitmap.Safe_serializedSize b :=
+  ⟨Bitmap.safe_serialize b h, Bitmap.safe_serializedSize b h⟩
+example : Bitmap.Safe_serialize exB := (C16_safe_serialize exB exB_wf).1
+/-- teeth: an empty container would make `(container.len() - 1) as u16` underflow -/
+example : ¬ Bitmap.Safe_serialize [⟨0, .array []⟩] := by decide
+
+/-- `statistics`: the `u32` counters and `n_values_array_containers += array.len() as u32`
+    (`≤ 65536 · 4096 = 2^28`), the `u64` sums (statistics.rs:27-70). -/
+theorem C16_safe_statistics (b : Bitmap) (h : b.WF) : Bitmap.Safe_statistics b := Bitmap.safe_statistics b h
+example : Bitmap.Safe_statistics exB := C16_safe_statistics exB exB_wf
+
+/-! ### `RoaringTreemap` (treemap/inherent.rs, treemap/util.rs) -/
+
+/-- treemap `util::split` / `util::join`: `(value >> 32) as u32` lossless, `u64::from(high) << 32` loses no bit
+    (treemap/util.rs:4-11). -/
+theorem C16_safe_treemap_split_join (v hi lo : Nat) (hv : v < 2^64) (hhi : hi < 4294967296) (hlo : lo < 4294967296) :
+    Treemap.Safe_split v ∧ Treemap.Safe_join hi lo := ⟨Treemap.safe_split v hv, Treemap.safe_join hi lo hhi hlo⟩
+example : Treemap.Safe_split 18446744073709551615 ∧ Treemap.Safe_join 4294967295 4294967295 := by decide
+
+/-- treemap `insert_range` over an existing inner partition: `full_bitmap.len() - entry.insert(full_bitmap).len()` does
+    not underflow, a well-formed partition holds at most `2^32 = full().len()` values (treemap/inherent.rs:100). -/
+theorem C16_safe_treemap_insertRange_full (old : Bitmap) (h : old.WF) : Treemap.Safe_insertRangeFull old :=
+  Treemap.safe_insertRangeFull old h
+example : Treemap.Safe_insertRangeFull exB := C16_safe_treemap_insertRange_full exB exB_wf
+
+/-- `RoaringTreemap::len` (`.map(RoaringBitmap::len).sum()`, treemap/inherent.rs:327-329) does not overflow `u64`
+    exactly when the treemap holds fewer than `2^64` values … -/
+theorem C16_safe_treemap_len_iff (t : Treemap) (h : Treemap.PartsWF t) :
+    Treemap.Safe_len t ↔ (Treemap.elems t).length < 2^64 := Treemap.safe_len_iff t h
+
+/-- … in particular whenever it has fewer than `2^32` partitions (a treemap with all `2^32` partitions needs at
+    least `2^32` heap allocations). -/
+theorem C16_safe_treemap_len (t : Treemap) (h : Treemap.PartsWF t) (hl : t.length < 4294967296) : Treemap.Safe_len t :=
+  Treemap.safe_len t h hl
+example : Treemap.Safe_len [(0, exB), (4294967295, exB)] := by
+  refine C16_safe_treemap_len _ ?_ (by decide)
+  intro p hp
+  simp only [List.mem_cons, List.not_mem_nil, or_false] at hp
+  rcases hp with rfl | rfl <;> exact ⟨by decide, exB_wf⟩
+
+/-- **Observation (not reachable in memory).**  For the one treemap that holds all `2^64` values the sum in `len()` is
+    exactly `2^64`: it overflows `u64` (panic with overflow checks, `0` without).  The same value is reached by
+    `rank(u64::MAX)` and by the counter of `insert_range(..)` into an empty treemap (treemap/inherent.rs:86, :328, :398).
+    It needs `2^32` full partitions (`2^32 × 65536 × 8 KiB = 2^61` bytes), so it is excluded by the property's
+    "fits in memory" clause. -/
+theorem C16_treemap_len_2p64_observation (t : Treemap) (h : Treemap.PartsWF t)
+    (hall : (Treemap.elems t).length = 2^64) : ¬ Treemap.Safe_len t := by
+  rw [C16_safe_treemap_len_iff t h, hall]; exact Nat.lt_irrefl _
+
+/-- `RoaringTreemap::rank`: the `u64` sum (treemap/inherent.rs:389-399), for fewer than `2^32` partitions. -/
+theorem C16_safe_treemap_rank (t : Treemap) (h : Treemap.PartsWF t) (hl : t.length < 4294967296) (v : Nat)
+    (hv : v < 2^64) : Treemap.Safe_rank t v := Treemap.safe_rank t h hl v hv
+
+/-- `RoaringTreemap::select`: `n -= len` guarded, `n as u32` lossless, `bitmap.select(n as u32).unwrap()` never
+    panics, `(key as u64) << 32 | …` loses no bit (treemap/inherent.rs:418-428). -/
+theorem C16_safe_treemap_select (t : Treemap) (h : Treemap.PartsWF t) (n : Nat) : Treemap.Safe_select t n :=
+  Treemap.safe_select t n h
+example : Treemap.Safe_select [(0, exB), (4294967295, exB)] 65540 := by
+  refine C16_safe_treemap_select _ ?_ _
+  intro p hp
+  simp only [List.mem_cons, List.not_mem_nil, or_false] at hp
+  rcases hp with rfl | rfl <;> exact ⟨by decide, exB_wf⟩
 
 end Roaring.C16
